@@ -123,13 +123,29 @@ def build_header(h):
     return PoseHeader(version, PoseHeaderDimensions(h["width"], h["height"], h["depth"]), comps)
 
 
-def build_pose(case):
+def relayout(a, layout):
+    """the same logical array in another memory layout: 'C' (contiguous), 'F' (Fortran order), 'T' (a transposed view of a person-major buffer),
+    'R' (a reversed-stride view), 'S' (every second element of a wider buffer)"""
+    if layout == "F":
+        return np.asfortranarray(a)
+    if layout == "T" and a.ndim >= 2:
+        return np.ascontiguousarray(a.swapaxes(0, 1)).swapaxes(0, 1)
+    if layout == "R":
+        return np.ascontiguousarray(a[::-1])[::-1]
+    if layout == "S":
+        wide = np.zeros(a.shape[:-1] + (a.shape[-1] * 2,), dtype=a.dtype)
+        wide[..., ::2] = a
+        return wide[..., ::2]
+    return a
+
+
+def build_pose(case, layout="C"):
     from pose_format import Pose
     from pose_format.numpy import NumPyPoseBody
     b = case["body"]
     shape = (b["frames"], b["people"], b["points"], b["dims"])
-    data = bits_to_f32(b["data"], shape)
-    conf = bits_to_f32(b["conf"], shape[:3])
+    data = relayout(bits_to_f32(b["data"], shape), layout)
+    conf = relayout(bits_to_f32(b["conf"], shape[:3]), layout)
     return Pose(build_header(case["header"]), NumPyPoseBody(fps_value(b["fps"]), data, conf))
 
 
